@@ -64,14 +64,14 @@ def run(rep, tier):
     theories = list(QUICK_THEORIES)
     if quick:
         theories.append(rnd.choice(MORE[:5]))
-        n_per, nsess = 8, 36
+        n_per, nsess, max_steps = 8, 36, 20        # quick: sampled theorems with at most 20 recorded steps
     else:
         theories += MORE
-        n_per, nsess = 60, 600
+        n_per, nsess, max_steps = 60, 600, 0
     evp = wd / "edit.ndjson"
     # the library / session driver runs while TLC works on the line-edit layer
     pool = ThreadPoolExecutor(max_workers=1)
-    fut = pool.submit(run_driver, "c13", ["edit", evp, seed(), n_per, ",".join(theories), nsess], timeout=7200)
+    fut = pool.submit(run_driver, "c13", ["edit", evp, seed(), n_per, ",".join(theories), nsess, max_steps], timeout=7200)
     t0 = time.time()
     timing = rep.notes.setdefault("timing_s", {})
     try:
